@@ -298,9 +298,10 @@ class Material(MutableMapping[str, str]):
         for param in self._params.values():
             name = param.name
             value = param.value
-            if any(c in BARE_DISALLOWED for c in name):
+            # Empty strings and a leading / or # (comment, directive) also cannot be bare words.
+            if not name or name[0] in '/#' or any(c in BARE_DISALLOWED for c in name):
                 name = f'"{name}"'
-            if not value or any(c in BARE_DISALLOWED for c in value):
+            if not value or value[0] in '/#' or any(c in BARE_DISALLOWED for c in value):
                 value = f'"{value}"'
             f.write(f'\t{name} {value}\n')
         for block in self.blocks:
